@@ -32,9 +32,20 @@ def run_property(pid, repo, tier):
     prog = Program(repo, extra_dirs=("scripts",) if tier == "thorough" else ())
     eng = Engine(prog)
     ctx = report.Ctx(pid, eng, tier)
-    mod.check(ctx)
-    if tier == "thorough" and hasattr(mod, "check_thorough"):
-        mod.check_thorough(ctx)
+    try:
+        mod.check(ctx)
+        if tier == "thorough" and hasattr(mod, "check_thorough"):
+            mod.check_thorough(ctx)
+    except AnalysisError as e:
+        # a vanished anchor / unsupported construct: if rule instances already failed on this tree, those
+        # reports stand (the tree is not the reference tree); otherwise the checker cannot decide
+        if not ctx.violations:
+            raise
+        ctx.note(f"analysis stopped early: {e}")
+    except Exception:
+        if not ctx.violations:
+            raise
+        ctx.note("analysis stopped early after reporting violations: " + traceback.format_exc(limit=3))
     if not ctx.obligations:
         raise AnalysisError(f"{pid}: no obligation was evaluated")
     known, new = report.split_known(pid, ctx.violations)
